@@ -341,7 +341,7 @@ func (r *dRunner) runOp(op *dOp) map[string]interface{} {
 				return ob
 			}
 			ob["r"] = olricErr(f.Result())
-			p.Close()
+			_ = p.Discard() // returns the command slices to the shared pool (and closes the pipeline)
 			return ob
 		}
 		ob["r"] = olricErr(dm.Put(ctx, key, val, putOptions(op)...))
@@ -373,7 +373,7 @@ func (r *dRunner) runOp(op *dOp) map[string]interface{} {
 				return ob
 			}
 			gr, err = f.Result()
-			p.Close()
+			_ = p.Discard() // returns the command slices to the shared pool (and closes the pipeline)
 			ob["r"] = olricErr(err)
 			if err != nil {
 				return ob
@@ -444,7 +444,7 @@ func (r *dRunner) runOp(op *dOp) map[string]interface{} {
 				}
 				total += n
 			}
-			p.Close()
+			_ = p.Discard() // returns the command slices to the shared pool (and closes the pipeline)
 			ob["r"] = olricErr(ferr)
 			ob["n"] = total
 			return ob
@@ -476,7 +476,7 @@ func (r *dRunner) runOp(op *dOp) map[string]interface{} {
 				return ob
 			}
 			ob["r"] = olricErr(f.Result())
-			p.Close()
+			_ = p.Discard() // returns the command slices to the shared pool (and closes the pipeline)
 			return ob
 		}
 		ob["r"] = olricErr(dm.Expire(ctx, key, time.Duration(op.Ms)*time.Millisecond))
@@ -513,7 +513,7 @@ func (r *dRunner) runOp(op *dOp) map[string]interface{} {
 				return ob
 			}
 			gr, err = f.Result()
-			p.Close()
+			_ = p.Discard() // returns the command slices to the shared pool (and closes the pipeline)
 			if err != nil && !errors.Is(err, redis.Nil) {
 				ob["r"] = olricErr(err)
 				return ob
@@ -575,7 +575,7 @@ func (r *dRunner) runOp(op *dOp) map[string]interface{} {
 				}
 				ob["r"] = olricErr(err)
 			}
-			p.Close()
+			_ = p.Discard() // returns the command slices to the shared pool (and closes the pipeline)
 			ob["n"] = n
 			return ob
 		}
@@ -600,7 +600,12 @@ func (r *dRunner) runOp(op *dOp) map[string]interface{} {
 			i, _ := r.memberFor(op.C, ki)
 			args := []interface{}{"DM.LOCK", op.D, key, strconv.FormatFloat(float64(op.Dl)/1000, 'f', -1, 64)}
 			if op.Ms != 0 {
-				args = append(args, "PX", op.Ms)
+				if op.EX != 0 {
+					// the EX form: seconds, possibly fractional (op.EX != 0 only selects the form, the timeout is op.Ms)
+					args = append(args, "EX", strconv.FormatFloat(float64(op.Ms)/1000, 'f', -1, 64))
+				} else {
+					args = append(args, "PX", op.Ms)
+				}
 			}
 			tok, err := r.cl.Raw(i).Do(ctx, args...).Text()
 			ob["r"] = olricErr(err)
